@@ -152,4 +152,11 @@ PROPS = {
         partial=["the metadata cache (core/arbitrators/caching) is exercised, not modelled"],
         assumptions=[],
     ),
+    "C20": dict(
+        streams=[dict(mode="cfg", quick=24, thorough=400, workers=8, driver_workers=1, timeout=3000)],
+        rule="configuration documents run through the REAL command (cmd.GenerateSpecAndRoutes) next to a fixed two-controller project: the valid base; every deletion of a section / field; every listed value of every constrained field (all engines, both OpenAPI versions, 19 permission strings, URL / e-mail / scheme / letter corruptions, glob sets); ill-typed members; random double corruptions (quick/thorough count); a malformed document; the empty object. Compared: the (field, tag) rejection reports in order; nothing written when rejected; paths + file modes + package clause + engine + openapi + info/servers/securitySchemes + contributing controllers when accepted; PermissionStringToFileMod on the configured string. non-trivial = a rejection or a completed generation; distinct = distinct document",
+        trusted_base=COMMON_TB + ["ConfigSchema translator (reflection over definitions.GleeceConfig in the harness build of /repo)", "go-playground's own url / email / filepath predicates and unicode.IsLetter for non-ASCII first characters are model parameters, evaluated by the harness with the same library", "glob matcher of the driver (`*` within one segment only; the generated globs use nothing else)", "umask cleared by the harness while the command runs"],
+        partial=["go-playground's traversal (declaration order, first failing tag per field, nil pointer skipped, dive) is the driver's interpreter, not a Lean theorem", "JSON5 syntax beyond JSON is not generated"],
+        assumptions=[],
+    ),
 }
